@@ -180,7 +180,9 @@ where
                         && buffered_req.is_none()
                         && buffered_rep.is_none() =>
                 {
-                    return Poll::Pending
+                    // Replies already handed to requestor sinks must still be flushed
+                    ready!(sink.as_mut().poll_flush(cx)).unwrap();
+                    return Poll::Pending;
                 }
                 // Otherwise, move on with running the stream
                 Poll::Pending => (),
